@@ -293,6 +293,34 @@ func scenarios() []hx.Scenario {
 			}
 		}
 	}
+	// thorough: one client with three operations against a second with one
+	var seq3 [][]op
+	for _, a := range alpha {
+		for _, b := range alpha {
+			for _, c := range alpha {
+				if a.kind == 'C' || b.kind == 'C' {
+					continue
+				}
+				seq3 = append(seq3, []op{a, b, c})
+			}
+		}
+	}
+	for _, s1 := range seq3 {
+		for _, b := range alpha {
+			add([][]op{s1, {b}}, true, mc.TimerGo123, nil, "")
+		}
+	}
+	// three clients with one operation each
+	for i, a := range alpha {
+		for j, b := range alpha {
+			for k, c := range alpha {
+				if j < i || k < j {
+					continue
+				}
+				add([][]op{{a}, {b}, {c}}, true, mc.TimerGo123, nil, "")
+			}
+		}
+	}
 	return out
 }
 
